@@ -666,8 +666,15 @@ def _save_composite_subset_state(state, context):
 @loader(CompositeSubsetState)
 def _load_composite_subset_state(rec, context):
     cls = lookup_class_with_patches(rec['_type'])
-    result = cls(context.object(rec['state1']),
-                 context.object(rec['state2']))
+    state1 = context.object(rec['state1'])
+    state2 = context.object(rec['state2'])
+    result = cls(state1, state2)
+    # The initializer makes copies of the states, but some states are only
+    # completed by a callback once everything is loaded (e.g. the reference
+    # data of a SliceSubsetState), which the copies would never see, so we
+    # use the loaded states themselves.
+    result.state1 = state1
+    result.state2 = state2
     return result
 
 
